@@ -105,7 +105,8 @@ Definition c16_clean_ok (all : bool) (ts : list telegram) (cs : list nat) (outs 
    A case is a list of episodes; each brings a number of chunks.  Clean episodes carry valid
    telegrams; garbage episodes carry bytes that are not a telegram sequence (`must` = the
    generator built them such that the decoder must have discarded them by the end of the
-   episode: non-delimiter first bytes, or a complete frame with a wrong checksum / end byte). *)
+   episode when the buffer was empty at its start: non-delimiter bytes, or a complete frame
+   with a wrong checksum / end byte). *)
 Inductive episode : Set :=
 | EpClean (ts : list telegram) (cs : list nat)
 | EpGarbage (must : bool) (cs : list nat).
@@ -129,7 +130,7 @@ Fixpoint c16_case_ok (all : bool) (eps : list episode) (synced : bool) (outs : l
   | EpGarbage must cs :: eps' =>
       let here := firstn (length cs) outs in
       Nat.eqb (length here) (length cs) &&
-      (if must then last_pending_zero synced here else true) &&
+      (if must && synced then last_pending_zero synced here else true) &&
       c16_case_ok all eps' (last_pending_zero synced here) (skipn (length cs) outs)
   end.
 
